@@ -14,7 +14,7 @@ FACILITY = {"abbr": "abbreviations", "stream-enum": "abbreviations", "parse": "s
             "stream-q": DISPATCH, "print-std": DISPATCH, "compare": DISPATCH,
             "convert": DISPATCH, "convert-inplace": DISPATCH, "static": "none", "plain": "none",
             "system": "unit-system-tables", "model": "model-tables", "dims": "none",
-            "misc": "none",
+            "misc": "none", "const-literal": "none",
             "abbr-all": "abbreviations", "related-all": "related-unit-systems", "parse-all": "spellings",
             "consistent-all": "consistent-units", "convert-all": DISPATCH, "quantity-all": DISPATCH}
 TABLE_KINDS = {k for k, v in FACILITY.items() if v != "none"}
@@ -270,6 +270,65 @@ class ProbeGen:
             body = "const PhQ::Direction<%s> d{%s, %s, %s}; return vrt::c(d.Print()) + vrt::c(d.Magnitude()) + vrt::cs([&d](std::ostream& os) { os << d; });" % (T, v(), v(), v())
         return self.mk("misc", hdr, body, "table-free facility %d <%s>" % (w, T))
 
+    def const_literal(self):
+        """an object whose initialiser has only LITERAL operands, as users write them (`const auto d = Direction{1.0, 1.0, 0.0};`):
+        where the library's code is constexpr the compiler constant-initialises it, i.e. evaluates the library at compile
+        time; main() evaluates the same expression on run-time (volatile-laundered) operands.  Both must agree."""
+        T = self.rng.choice(NUMERIC)
+        lits = [self.rng.choice(VALUES) for _ in range(12)]
+        k = [0]
+
+        def operands(n):
+            out = lits[k[0]:k[0] + n]
+            k[0] += n
+            return out
+
+        def both(fmt, n):
+            ops = operands(n)
+            lit = fmt % tuple("static_cast<%s>(%s%s)" % (T, v, SUFFIX[T]) for v in ops)
+            vol = fmt % tuple("vrt::V<%s>(%s%s)" % (T, v, SUFFIX[T]) for v in ops)
+            return lit, vol
+        w = self.rng.below(10)
+        hdr = ["PhQ/Base.hpp", "PhQ/Vector.hpp", "PhQ/Dyad.hpp", "PhQ/SymmetricDyad.hpp", "PhQ/PlanarVector.hpp", "PhQ/Direction.hpp",
+               "PhQ/PlanarDirection.hpp", "PhQ/Angle.hpp"]
+        if w == 0:
+            lit, vol = both("PhQ::Direction<" + T + ">{%s, %s, %s}", 3); read = ".Value().x_y_z()"; note = "Direction"
+        elif w == 1:
+            lit, vol = both("PhQ::PlanarDirection<" + T + ">{%s, %s}", 2); read = ".Value().x_y()"; note = "PlanarDirection"
+        elif w == 2:
+            lit, vol = both("PhQ::Vector<" + T + ">{%s, %s, %s}.Magnitude()", 3); read = ""; note = "Vector::Magnitude"
+        elif w == 3:
+            lit, vol = both("PhQ::PlanarVector<" + T + ">{%s, %s}.Magnitude()", 2); read = ""; note = "PlanarVector::Magnitude"
+        elif w == 4:
+            lit, vol = both("PhQ::Vector<" + T + ">{%s, %s, %s}.Cross(PhQ::Vector<" + T + ">{%s, %s, %s})", 6); read = ".x_y_z()"; note = "Vector::Cross"
+        elif w == 5:
+            lit, vol = both("PhQ::Dyad<" + T + ">{%s, %s, %s, %s, %s, %s, %s, %s, %s}.Determinant()", 9); read = ""; note = "Dyad::Determinant"
+        elif w == 6:
+            lit, vol = both("PhQ::SymmetricDyad<" + T + ">{%s, %s, %s, %s, %s, %s}.Cofactors()", 6); read = ".xx_xy_xz_yy_yz_zz()"; note = "SymmetricDyad::Cofactors"
+        else:
+            # compile-time unit machinery: Create<Unit>, StaticValue<Unit>, ConvertStatically, arithmetic (double: guaranteed to compile)
+            T = "double"
+            U = self.rng.choice(sorted(self.cat.units))
+            qs = [q for q in self.cat.quantities_of_unit(U) if q["shape"] == "Scalar"]
+            a, b = self.two_enums(U)
+            ea, eb = self.enum(U, a), self.enum(U, b)
+            if w == 7 or not qs:
+                lit, vol = both("PhQ::ConvertStatically<PhQ::Unit::" + U + ", " + ea + ", " + eb + ">(%s)", 1); read = ""; note = "ConvertStatically<%s>" % U
+            elif w == 8:
+                Q = self.rng.choice(qs)
+                lit, vol = both("PhQ::" + Q["name"] + "<double>::Create<" + ea + ">(%s).StaticValue<" + eb + ">()", 1); read = ""; note = "%s Create/StaticValue" % Q["name"]
+                hdr = [Q["header"]]
+            else:
+                Q = self.rng.choice(qs)
+                lit, vol = both("(PhQ::" + Q["name"] + "<double>::Create<" + ea + ">(%s) + PhQ::" + Q["name"] + "<double>::Create<" + eb + ">(%s)) * %s", 3)
+                read = ".Value()"; note = "%s arithmetic" % Q["name"]
+                hdr = [Q["header"]]
+            hdr = hdr + [self.cat.units[U]["header"]]
+        p = self.mk("const-literal", hdr, "return vrt::c((%s)%s);" % (vol, read), "literal operands: %s<%s>" % (note, T))
+        p["object"] = {"type": "auto", "init": " = %s" % lit, "read": read}
+        p["force_literal"] = True
+        return p
+
     # -- batch probes: one probe walks every enumerator / literal of a unit type (exhaustive, cheap to compile)
     def abbr_all(self, U):
         es = ", ".join(self.enum(U, e) for e in self.cat.units[U]["enumerators"])
@@ -393,7 +452,10 @@ def as_item(probe, pid, rng, allow_literal=True):
     # from a C++17 inline variable / static inline data member (partially ordered; clang initialises these
     # earlier than ordinary objects, GCC does not)
     it["twin"] = rng.choice(["inline", "member"])
-    if allow_literal and rng.chance(0.25):
+    if probe.get("force_literal"):
+        it["form"] = "literal"
+        it["storage"] = rng.choice(["const", "static const", "inline const"])
+    elif allow_literal and rng.chance(0.25):
         it["form"] = "literal"
         it["storage"] = rng.choice(LITERAL_FORMS)
     return it
